@@ -43,6 +43,7 @@ fn main() {
         "frames" => fqv::scen_render::frames(&mut sink, seed, thorough),
         "histories" => fqv::scen_hist::histories(&mut sink, &arg(&args, "--replay-in", ""), arg(&args, "--grp0", "0").parse().unwrap_or(0), arg(&args, "--mapping", "") == "rejected"),
         "aftermath" => fqv::scen_hist::aftermath(&mut sink, seed, thorough, 2_000_000),
+        "walk" => fqv::scen_hist::walk(&mut sink, seed, thorough, 3_000_000),
         "soak" => fqv::scen_hist::soak(&mut sink, seed, thorough),
         "threads" => fqv::scen_hist::threads(&mut sink, seed, thorough, 1_000_000),
         "fileio" => fqv::scen_file::fileio(&mut sink, seed, thorough, &arg(&args, "--replay-in", "")),
